@@ -631,7 +631,7 @@ Definition after_transfer : tcp :=
   run (fresh_conn 1000 5000 1460 30000)
       [EWrite (repeat 7 30); ESeg (mkSeg 5001 1031 fAck 30000 [] false false) 300000000].
 Example idle_after_transfer : idle_state 1031 5001 false after_transfer.
-Proof. apply idle_state_intro; vm_compute; try reflexivity; split; [discriminate|reflexivity]. Qed.
+Proof. apply idle_state_intro; try (vm_compute; reflexivity); vm_compute; (split; [discriminate|reflexivity]). Qed.
 Example close_after_transfer :
   estate (run after_transfer [EShutW; ESeg (seg_ack 5001 1032 30000 false false) 300000000;
                               ESeg (seg_fin 5001 1032 30000 false false) 300000000]) = stClosed.
